@@ -22,6 +22,7 @@ func init() {
 		},
 		Run: runC28,
 		Controls: []Control{
+			{Name: "refactor-dispose-all-over-copy", Silent: true, File: "protocols/bgp/server/bmp_neighbor_manager.go", Old: "\tfor len(nm.neighbors) > 0 {\n\t\tnm._neighborDown(nm.neighbors[0].vrfID, nm.neighbors[0].peerAddress)\n\t}\n", New: "\tall := make([]*neighbor, len(nm.neighbors))\n\tcopy(all, nm.neighbors)\n\tfor _, n := range all {\n\t\tnm._neighborDown(n.vrfID, n.peerAddress)\n\t}\n"},
 			{Name: "dispose-all-ranges-over-shrinking-list", File: "protocols/bgp/server/bmp_neighbor_manager.go", Old: "\tfor len(nm.neighbors) > 0 {\n\t\tnm._neighborDown(nm.neighbors[0].vrfID, nm.neighbors[0].peerAddress)\n\t}\n", New: "\tfor _, n := range nm.neighbors {\n\t\tnm._neighborDown(n.vrfID, n.peerAddress)\n\t}\n", Expect: "iteration-visits-every-element"},
 			{Name: "add-path-direction-swapped", File: "protocols/bgp/server/bmp_router.go", Old: "\t\t\t\t\tcase packet.AddPathSend:\n\t\t\t\t\t\tpeerFamily.addPathSend = routingtable.ClientOptions{\n\t\t\t\t\t\t\tMaxPaths: 10,\n\t\t\t\t\t\t}\n\t\t\t\t\tcase packet.AddPathReceive:\n\t\t\t\t\t\tpeerFamily.addPathReceive = true\n", New: "\t\t\t\t\tcase packet.AddPathReceive:\n\t\t\t\t\t\tpeerFamily.addPathSend = routingtable.ClientOptions{\n\t\t\t\t\t\t\tMaxPaths: 10,\n\t\t\t\t\t\t}\n\t\t\t\t\tcase packet.AddPathSend:\n\t\t\t\t\t\tpeerFamily.addPathReceive = true\n", Expect: "add-path-direction-agreement"},
 			{Name: "peer-down-skips-ipv6", File: "protocols/bgp/server/bmp_neighbor_manager.go", Old: "\t\tif nm.neighbors[i].fsm.ipv6Unicast != nil {\n\t\t\tnm.neighbors[i].fsm.ipv6Unicast.bmpDispose()\n\t\t}\n", New: "", Expect: "session-end-disposes-tables"},
